@@ -230,6 +230,46 @@ theorem builtin_shape {n : String} {y : YType} (h : builtin? n = some y) :
 
 /-! ## Errors of the overlays -/
 
+theorem mem_appendNewErrs (x : Err) : ∀ (new have_ : List Err),
+    x ∈ appendNewErrs have_ new ↔ x ∈ have_ ∨ x ∈ new := by
+  intro new
+  induction new with
+  | nil => intro have_; simp [appendNewErrs]
+  | cons q rest ih =>
+    intro have_
+    unfold appendNewErrs
+    split
+    · rename_i hc
+      have hq : q ∈ have_ := by
+        obtain ⟨o, ho, hoq⟩ := List.any_eq_true.mp hc
+        exact (of_decide_eq_true hoq) ▸ ho
+      rw [ih]
+      constructor
+      · rintro (h | h)
+        · exact Or.inl h
+        · exact Or.inr (List.mem_cons_of_mem _ h)
+      · rintro (h | h)
+        · exact Or.inl h
+        · cases h with
+          | head => exact Or.inl hq
+          | tail _ h => exact Or.inr h
+    · rw [ih]
+      simp only [List.mem_append, List.mem_cons, List.not_mem_nil, or_false]
+      exact or_assoc
+
+theorem appendNewErrs_eq_nil {have_ new : List Err} (h : appendNewErrs have_ new = []) : have_ = [] ∧ new = [] := by
+  constructor
+  · cases hq : have_ with
+    | nil => rfl
+    | cons a l =>
+      have : a ∈ appendNewErrs have_ new := (mem_appendNewErrs a new have_).mpr (Or.inl (by rw [hq]; exact List.mem_cons_self))
+      rw [h] at this; cases this
+  · cases hq : new with
+    | nil => rfl
+    | cons a l =>
+      have : a ∈ appendNewErrs have_ new := (mem_appendNewErrs a new have_).mpr (Or.inr (by rw [hq]; exact List.mem_cons_self))
+      rw [h] at this; cases this
+
 theorem flatMap_errs_nil {members : List Res} (h : members.flatMap (·.errs) = []) :
     ∀ r ∈ members, r.errs = [] := by
   intro r hr
@@ -246,8 +286,8 @@ theorem overlayType_errs_nil {env : Env} {root : Mod} {t : Stmt} {src : Source} 
   · simp at h
   · split at h
     · simp at h
-    · simp only [stepMembers, List.append_eq_nil_iff] at h
-      exact flatMap_errs_nil h.2
+    · simp only [stepMembers] at h
+      exact flatMap_errs_nil (appendNewErrs_eq_nil h).2
 
 /-- The keyword of a statement picked by `one?` / `all`. -/
 theorem kw_of_one {s : Stmt} {k : String} {c : Stmt} (h : s.one? k = some c) : c.kw = k := by
@@ -642,7 +682,7 @@ theorem stepPattern_errs (t : Stmt) (s : St) : (stepPattern t s).2 = s.2 := rfl
 theorem stepPosix_errs_nil {env : Env} {pps : List Stmt} {s : St} (h : (stepPosix env pps s).2 = []) : s.2 = [] :=
   (List.append_eq_nil_iff.mp h).1
 theorem stepMembers_errs_nil {ms : List Res} {s : St} (h : (stepMembers ms s).2 = []) : s.2 = [] :=
-  (List.append_eq_nil_iff.mp h).1
+  (appendNewErrs_eq_nil h).1
 
 /-- The state after the kind switch, in an error-free overlay. -/
 theorem overlayLocal_errs_nil {env : Env} {root : Mod} {t : Stmt} {src : Source} {tdY : YType} {s : St}
